@@ -17,1077 +17,10 @@ From GoArt Require Import Base.Bytes Model.Node4 Model.Node16 Model.Node Model.T
   Proofs.NodeAuxAssoc Proofs.NodeAuxArr Proofs.InsertFacts Proofs.IterFacts Spec.Ideal Proofs.PropFacts Proofs.TranslateFacts.
 From GoArt Require Import Model.Pool Proofs.PoolFacts Model.PoolTree Proofs.PoolTreeFacts.
 From GoArt Require Import Model.GoArith Model.GoTree Gen.Node4Gen Gen.Node16Gen Gen.TreeGen Proofs.TranslateTreeFacts Gen.IterGen.
+From GoArt Require Export Proofs.TranslateIterBase Proofs.TranslateIterAll Proofs.TranslateIterFilter Proofs.TranslateIterBackward Proofs.TranslateIterRange Proofs.TranslateIterBounded.
 From Coq Require Import ZifyN ZifyNat ZifyBool.
 Ltac Zify.zify_post_hook ::= Z.div_mod_to_equations.
 Open Scope N_scope.
-
-(* ================= 0. slices, the reading of a result ================= *)
-Definition status_of (h : iend) : wstatus :=
-  match h with ByReturn => WStopped | ByBreak => WBroke | ByEnd => WDone | ByFuel => WFuel end.
-Definition ires_abs (r : ires) : option wres :=
-  match r with
-  | IDone how c acc => Some (mkWres (rev (map tabs acc)) c (status_of how))
-  | IPanic | IFuel => None
-  end.
-
-Lemma idx_last : forall {A} (q : list A) x, nth_error (q ++ [x]) (length q) = Some x.
-Proof. intros A q x. rewrite nth_error_app2 by lia. rewrite Nat.sub_diag. reflexivity. Qed.
-Lemma len_snoc_pred : forall {A} (q : list A) x, (Z.of_nat (length (q ++ [x])) - 1)%Z = Z.of_nat (length q).
-Proof. intros A q x. rewrite app_length. cbn [length]. lia. Qed.
-Lemma idx_refs_last : forall (q : list gref) x, idx_refs (q ++ [x]) (Z.of_nat (length (q ++ [x])) - 1) = Some x.
-Proof. intros q x. rewrite len_snoc_pred, idx_refs_nat. apply idx_last. Qed.
-Lemma idx_entries_nat : forall (l : list (gref * Z)) i, idx_entries l (Z.of_nat i) = nth_error l i.
-Proof.
-  intros l i. unfold idx_entries. destruct (Z.ltb_spec (Z.of_nat i) 0); [lia|]. rewrite Nat2Z.id. reflexivity.
-Qed.
-Lemma idx_entries_last : forall (q : list (gref * Z)) x, idx_entries (q ++ [x]) (Z.of_nat (length (q ++ [x])) - 1) = Some x.
-Proof. intros q x. rewrite len_snoc_pred, idx_entries_nat. apply idx_last. Qed.
-Lemma slice_to_nat : forall {A} (s : list A) k, (k <= length s)%nat -> slice_to s (Z.of_nat k) = Some (firstn k s).
-Proof.
-  intros A s k H. unfold slice_to.
-  destruct (Z.ltb_spec (Z.of_nat k) 0); [lia|]. destruct (Z.ltb_spec (Z.of_nat (length s)) (Z.of_nat k)); [lia|].
-  cbn [orb]. rewrite Nat2Z.id. reflexivity.
-Qed.
-Lemma slice_to_last : forall {A} (q : list A) x, slice_to (q ++ [x]) (Z.of_nat (length (q ++ [x])) - 1) = Some q.
-Proof.
-  intros A q x. rewrite len_snoc_pred, slice_to_nat by (rewrite app_length; lia).
-  rewrite firstn_app, Nat.sub_diag, firstn_all. cbn [firstn]. rewrite app_nil_r. reflexivity.
-Qed.
-Lemma slice_from_to_nat : forall {A} (s : list A) lo n, (lo + n <= length s)%nat ->
-  slice_from_to s (Z.of_nat lo) (Z.of_nat lo + Z.of_nat n) = Some (firstn n (skipn lo s)).
-Proof.
-  intros A s lo n H. unfold slice_from_to.
-  destruct (Z.ltb_spec (Z.of_nat lo) 0); [lia|].
-  destruct (Z.ltb_spec (Z.of_nat lo + Z.of_nat n) (Z.of_nat lo)); [lia|].
-  destruct (Z.ltb_spec (Z.of_nat (length s)) (Z.of_nat lo + Z.of_nat n)); [lia|]. cbn [orb].
-  replace (Z.to_nat (Z.of_nat lo + Z.of_nat n - Z.of_nat lo)) with n by lia. rewrite Nat2Z.id. reflexivity.
-Qed.
-Lemma len_nonzero : forall {A} (q : list A) x, negb (Z.of_nat (length (q ++ [x])) =? 0)%Z = true.
-Proof. intros A q x. rewrite app_length. cbn [length]. destruct (Z.eqb_spec (Z.of_nat (length q + 1)) 0); [lia|reflexivity]. Qed.
-Lemma firstn_succ_nth : forall {A} (l : list A) k x, nth_error l k = Some x -> firstn (S k) l = firstn k l ++ [x].
-Proof.
-  intros A. induction l as [|y l IH]; intros [|k] x H; cbn [nth_error] in H; try discriminate.
-  - injection H as ->. reflexivity.
-  - cbn [firstn app]. f_equal. apply IH. exact H.
-Qed.
-
-(* ================= 1. findChild ================= *)
-(* a cell the invariant calls occupied holds a non-nil reference *)
-Lemma slot_occ_some : forall (ch : list (option xtree)) m i, forallb isome (firstn m ch) = true ->
-  length (somes (firstn m ch)) = m -> (i < m)%nat -> exists c, slot ch i = Some c.
-Proof.
-  intros ch m i Ho Hl Hi. rewrite (slot_occ ch m i Ho Hi).
-  apply nth_error_lt_some. lia.
-Qed.
-Lemma xwf48_cell : forall {C} h idx (ch : list (option C)), xwf (X48 h idx ch) ->
-  forall b, (b < 256)%nat -> nth b idx 0 = 0 \/
-    (1 <= nth b idx 0 <= 48 /\ exists c, nth_error ch (N.to_nat (nth b idx 0 - 1)) = Some (Some c)).
-Proof.
-  intros C h idx ch (_ & _ & Hn) b Hb. cbn [xabs] in Hn. destruct Hn as (_ & _ & _ & Hinv & _).
-  specialize (Hinv b Hb). cbv zeta in Hinv. destruct Hinv as [Hz|(H1 & H2 & H3)]; [left; exact Hz|right]. split; [lia|exact H3].
-Qed.
-
-Theorem gen_findChild_eq : forall n b, xwf n -> b < 256 ->
-  g_findChild (Some (XInner n)) b = GRet (option_map Some (xfind n b)).
-Proof.
-  intros n b Hx Hb. destruct n as [h keys ch|h keys ch|h idx ch|h ch];
-    cbn [g_findChild ref_tag ref_pointer cast_node4 cast_node16 cast_node48 cast_node256 xword xbytes xch xh].
-  - assert (Hk : keys < M32) by (destruct Hx as (_ & _ & Hn); cbn [xabs] in Hn; destruct Hn as (_ & Hk' & _); exact Hk').
-    rewrite (gen_searchNode4_eq keys b Hk Hb). pose proof (searchNode4_ge keys b) as Hge.
-    destruct (xwf4_inv _ _ _ Hx) as (Hc4 & Ho & Hm4 & Hl). cbn [xfind].
-    destruct (negb (searchNode4 keys b =? -1)%Z && (searchNode4 keys b <? Z.of_N (xlen h))%Z) eqn:Ec; [|reflexivity].
-    apply andb_prop in Ec. destruct Ec as [Ec1 Ec2]. apply negb_true_iff, Z.eqb_neq in Ec1. apply Z.ltb_lt in Ec2.
-    rewrite idx_refs_slot by lia.
-    destruct (slot_occ_some ch _ (Z.to_nat (searchNode4 keys b)) Ho Hl ltac:(lia)) as [c Ec]. rewrite Ec. reflexivity.
-  - destruct (xwf16_keys _ _ _ Hx) as (Hk16 & HF16 & Hl16). destruct (xwf16_inv _ _ _ Hx) as (_ & Hc16 & Ho & Hm16 & Hl).
-    rewrite (gen_searchNode16_eq keys (xlen h) b Hk16 HF16 Hb Hl16). cbn [xfind].
-    destruct (search16_cases keys (xlen h) b Hk16 Hl16) as [E|(k & E & Hlt)]; rewrite E.
-    + reflexivity.
-    + destruct (Z.eqb_spec (Z.of_nat k) (-1)); [lia|]. cbn [negb]. rewrite idx_refs_slot by lia.
-      destruct (slot_occ_some ch _ (Z.to_nat (Z.of_nat k)) Ho Hl ltac:(lia)) as [c Ec]. rewrite Ec. reflexivity.
-  - destruct (xwf48_inv _ _ _ Hx) as (Hli & Hlc & _). rewrite idx_bytes_N by lia. cbn [xfind].
-    destruct (xwf48_cell _ _ _ Hx (N.to_nat b) ltac:(lia)) as [Hz|(Hr & c & Hc)].
-    + rewrite Hz. reflexivity.
-    + destruct (N.eqb_spec (nth (N.to_nat b) idx 0) 0); [lia|]. cbn [negb].
-      rewrite subw8_pred by lia. rewrite idx_refs_slot by lia.
-      replace (Z.to_nat (Z.of_N (nth (N.to_nat b) idx 0 - 1))) with (N.to_nat (nth (N.to_nat b) idx 0 - 1)) by lia.
-      unfold slot. rewrite Hc. reflexivity.
-  - pose proof (xwf256_inv _ _ Hx) as Hlc. rewrite !idx_refs_slot by lia.
-    replace (Z.to_nat (Z.of_N b)) with (N.to_nat b) by lia. cbn [xfind].
-    destruct (slot ch (N.to_nat b)) as [c|]; reflexivity.
-Qed.
-
-(* ================= 2. lowestCommonParent ================= *)
-Definition ikind (n : xnode xtree) : gkind :=
-  match n with X4 _ _ _ => Kind4 | X16 _ _ _ => Kind16 | X48 _ _ _ => Kind48 | X256 _ _ => Kind256 end.
-Lemma ref_tag_inner : forall n, ref_tag (Some (XInner n)) = Some (ikind n).
-Proof. intros [h k c|h k c|h k c|h c]; reflexivity. Qed.
-Lemma ikind_not_leaf : forall n, gkind_eqb (ikind n) KindLeaf = false.
-Proof. intros [h k c|h k c|h k c|h c]; reflexivity. Qed.
-Lemma theight_child : forall (n : rnode tree) b c, In (b, c) (nenum n) -> (theight c < theight (Inner n))%nat.
-Proof. intros n b c H. apply (in_nenum_height n b c H). Qed.
-
-Theorem gen_lowestCommonParent_loop_eq : forall fuel t p d dd, xtwf t -> WF dd (tabs t) -> isbytes p = true ->
-  (theight (tabs t) < fuel)%nat ->
-  exists r dep, g_lowestCommonParent_loop1 fuel p (Some t) (Z.of_nat d) = LDone (Some r, dep) /\
-    lcparent fuel (tabs t) p d = Some (tabs r).
-Proof.
-  induction fuel as [|fuel IH]; intros t p d dd Hxt Hwf Hp Hh; [lia|].
-  destruct t as [gk tk v|n].
-  { exists (XLeaf gk tk v), (Z.of_nat d). split; reflexivity. }
-  destruct (xtwf_inv _ Hxt) as [Hx Hch]. rewrite tabs_inner in *.
-  cbn [g_lowestCommonParent_loop1 ref_is_nil ref_pointer negb ref_node lcparent].
-  rewrite ref_tag_inner, ikind_not_leaf. cbn [negb].
-  cbv zeta. rewrite nhdr_nabs. cbn [xabs_hdr prefixLen].
-  (* the continuation after the compressed-path test, at depth d1 *)
-  assert (Hk : forall d1,
-    exists r dep,
-      (if (Z.of_nat (length p) <=? Z.of_nat d1)%Z then LDone (Some (XInner n), Z.of_nat d1)
-       else match idx_bytes p (Z.of_nat d1) with
-            | None => LPanic
-            | Some v_2 =>
-              match g_findChild (Some (XInner n)) v_2 with
-              | GRet r_2 =>
-                if ptr_is_nil r_2 then LDone (Some (XInner n), Z.of_nat d1)
-                else match r_2 with
-                     | None => LPanic
-                     | Some v_3 => g_lowestCommonParent_loop1 fuel p v_3 (Z.of_nat d1 + 1)
-                     end
-              | GPanic => LPanic
-              | GFuel => LFuel
-              end
-            end) = LDone (Some r, dep) /\
-      match nth_error p d1 with
-      | None => Some (Inner (nabs n))
-      | Some b => match nfind (nabs n) b with None => Some (Inner (nabs n)) | Some c => lcparent fuel c p (S d1) end
-      end = Some (tabs r)).
-  { intros d1. destruct (nth_error p d1) as [b|] eqn:Eb.
-    - assert (Hd1 : (d1 < length p)%nat) by (apply nth_error_Some; rewrite Eb; discriminate).
-      replace (Z.of_nat (length p) <=? Z.of_nat d1)%Z with false by (symmetry; apply Z.leb_gt; lia).
-      rewrite idx_bytes_nat, Eb. pose proof (nth_byte _ _ _ Hp Eb) as Hb.
-      rewrite (gen_findChild_eq n b Hx Hb), (nfind_nabs n b Hx).
-      destruct (xfind n b) as [c|] eqn:Ef; cbn [option_map omap ptr_is_nil].
-      + destruct (xfind_child n b c Hx Ef) as [b' Hin].
-        destruct (WF_child _ _ _ _ Hwf (in_nenum_nabs _ _ _ Hin)) as [Hc _].
-        pose proof (theight_child _ _ _ (in_nenum_nabs _ _ _ Hin)) as Hhc.
-        replace (Z.of_nat d1 + 1)%Z with (Z.of_nat (S d1)) by lia.
-        apply (IH c p (S d1) _ (Hch b' c Hin) Hc Hp). lia.
-      + exists (XInner n), (Z.of_nat d1). split; [reflexivity|]. rewrite tabs_inner. reflexivity.
-    - apply nth_error_None in Eb.
-      replace (Z.of_nat (length p) <=? Z.of_nat d1)%Z with true by (symmetry; apply Z.leb_le; lia).
-      exists (XInner n), (Z.of_nat d1). split; [reflexivity|]. rewrite tabs_inner. reflexivity. }
-  destruct (Nat.eqb_spec (xplen (xh n)) 0) as [Ep|Ep].
-  - replace (hdr_prefixLen (xh n) =? 0) with true by (symmetry; apply N.eqb_eq; unfold hdr_prefixLen; lia).
-    cbn [negb andb]. rewrite Ep, Nat.add_0_r. apply Hk.
-  - replace (hdr_prefixLen (xh n) =? 0) with false by (symmetry; apply N.eqb_neq; unfold hdr_prefixLen; lia).
-    cbn [negb andb].
-    rewrite (gen_prefixMismatch_eq fuel n p d dd Hxt Hwf ltac:(lia)).
-    replace (Z.of_nat (prefixMismatch (nabs n) p d) <? Z.of_N (hdr_prefixLen (xh n)))%Z
-      with (prefixMismatch (nabs n) p d <? xplen (xh n))%nat
-      by (unfold hdr_prefixLen; destruct (Nat.ltb_spec (prefixMismatch (nabs n) p d) (xplen (xh n)));
-          destruct (Z.ltb_spec (Z.of_nat (prefixMismatch (nabs n) p d)) (Z.of_N (N.of_nat (xplen (xh n))))); try reflexivity; lia).
-    destruct (prefixMismatch (nabs n) p d <? xplen (xh n))%nat.
-    + exists (XInner n), (Z.of_nat d). split; [reflexivity|]. rewrite tabs_inner. reflexivity.
-    + replace (Z.of_nat d + Z.of_N (hdr_prefixLen (xh n)))%Z with (Z.of_nat (d + xplen (xh n))) by (unfold hdr_prefixLen; lia).
-      apply Hk.
-Qed.
-
-(* lowestCommonParent(root, prefix) on a non-nil root: the node the model's descent stops at; no panic, and the
-   budget is enough as soon as it exceeds the height (minimum() inside prefixMismatch is given the same budget) *)
-Theorem gen_lowestCommonParent_eq : forall fuel t p dd, xtwf t -> WF dd (tabs t) -> isbytes p = true ->
-  (theight (tabs t) < fuel)%nat ->
-  exists r, g_lowestCommonParent fuel (Some t) p = GRet (Some r) /\ lcparent fuel (tabs t) p 0 = Some (tabs r).
-Proof.
-  intros fuel t p dd Hxt Hwf Hp Hh.
-  destruct (gen_lowestCommonParent_loop_eq fuel t p 0 dd Hxt Hwf Hp Hh) as (r & dep & Hl & Hm).
-  exists r. split; [|exact Hm]. unfold g_lowestCommonParent. cbv zeta. cbn [Z.of_nat] in Hl. rewrite Hl. reflexivity.
-Qed.
-(* a nil root is returned as it is *)
-Theorem gen_lowestCommonParent_nil : forall fuel p, g_lowestCommonParent fuel None p = GRet None.
-Proof. intros [|fuel] p; reflexivity. Qed.
-
-(* ================= 3. the children of a raw node, as the counting loops push them ================= *)
-Definition xkids (n : xnode xtree) : list xtree := map snd (nenum (xabs n)).
-Lemma nchildren_nabs : forall n, nchildren (nabs n) = map tabs (xkids n).
-Proof. intros n. unfold nchildren, xkids. rewrite nenum_nabs, !map_map. reflexivity. Qed.
-Lemma xkids_xtwf : forall n, xtwf (XInner n) -> Forall xtwf (xkids n).
-Proof.
-  intros n H. destruct (xtwf_inv _ H) as [_ Hch]. apply Forall_forall. intros c Hin.
-  unfold xkids in Hin. apply in_map_iff in Hin. destruct Hin as ([b c'] & <- & Hin). exact (Hch b c' Hin).
-Qed.
-
-Definition cell48 (ch : list (option xtree)) (i : N) : list xtree :=
-  if i =? 0 then [] else match nth_error ch (N.to_nat (i - 1)) with Some (Some c) => [c] | _ => [] end.
-Definition kids48 (ch : list (option xtree)) (l : list N) : list xtree := flat_map (cell48 ch) l.
-Lemma enum_idx_kids : forall idx ch b, map snd (enum_idx idx ch b) = kids48 ch idx.
-Proof.
-  induction idx as [|i idx IH]; intros ch b; [reflexivity|].
-  cbn [enum_idx kids48 flat_map]. rewrite map_app, IH. unfold kids48. f_equal.
-  unfold cell48. destruct (i =? 0); [reflexivity|]. destruct (nth_error ch (N.to_nat (i - 1))) as [[c|]|]; reflexivity.
-Qed.
-Lemma enum_slots_kids : forall (ch : list (option xtree)) b, map snd (enum_slots ch b) = somes ch.
-Proof.
-  induction ch as [|[c|] ch IH]; intros b; cbn [enum_slots somes map app]; [reflexivity|f_equal; apply IH|apply IH].
-Qed.
-Lemma snd_combine : forall {A B} (ks : list A) (cs : list B), (length cs <= length ks)%nat -> map snd (combine ks cs) = cs.
-Proof.
-  intros A B. induction ks as [|k ks IH]; intros [|c cs] H; cbn [length] in H; cbn [combine map]; try reflexivity; [lia|].
-  f_equal. apply IH. lia.
-Qed.
-Lemma xkids4 : forall h keys ch, xwf (X4 h keys ch) ->
-  firstn (N.to_nat (xlen h)) ch = map Some (xkids (X4 h keys ch)).
-Proof.
-  intros h keys ch Hx. destruct (xwf4_inv _ _ _ Hx) as (Hc & Ho & Hm & Hl).
-  unfold xkids. cbn [xabs nenum]. rewrite snd_combine by (rewrite firstn_length, lanes_length; lia).
-  apply occ_map. exact Ho.
-Qed.
-Lemma xkids16 : forall h keys ch, xwf (X16 h keys ch) ->
-  firstn (N.to_nat (xlen h)) ch = map Some (xkids (X16 h keys ch)).
-Proof.
-  intros h keys ch Hx. destruct (xwf16_inv _ _ _ Hx) as (Hk & Hc & Ho & Hm & Hl).
-  unfold xkids. cbn [xabs nenum]. rewrite snd_combine by (rewrite firstn_length; lia).
-  apply occ_map. exact Ho.
-Qed.
-Lemma xkids48 : forall h idx ch, xkids (X48 h idx ch) = kids48 ch idx.
-Proof. intros. unfold xkids. cbn [xabs nenum]. apply enum_idx_kids. Qed.
-Lemma xkids256 : forall h ch, xkids (X256 h ch) = somes ch.
-Proof. intros. unfold xkids. cbn [xabs nenum]. apply enum_slots_kids. Qed.
-Lemma kids48_app : forall ch l1 l2, kids48 ch (l1 ++ l2) = kids48 ch l1 ++ kids48 ch l2.
-Proof. intros. unfold kids48. apply flat_map_app. Qed.
-
-(* ---- the counting loops, each proved once for any Fixpoint with the same unfolding equation:
-   E the type of a stack entry, mk what is pushed for the reference read ---- *)
-Section DownArr.   (* for i := int(n.childrenLen) - 1; i >= 0; i-- { q = append(q, mk n.children[i]) } *)
-Context {E : Type} (mk : gref -> E) (L : nat -> xnode xtree -> list E -> Z -> lres ires (list E * Z)).
-Hypothesis L_eq : forall fuel n q i, L fuel n q i =
-  if (0 <=? i)%Z then
-    match fuel with
-    | O => LFuel
-    | S fuel => match idx_refs (xch n) i with None => LPanic | Some v => L fuel n (q ++ [mk v]) (i - 1)%Z end
-    end
-  else LDone (q, i).
-Lemma down_arr : forall k n q, (k <= length (xch n))%nat ->
-  L k n q (Z.of_nat k - 1) = LDone (q ++ rev (map mk (firstn k (xch n))), (-1)%Z).
-Proof.
-  induction k as [|k IH]; intros n q Hk.
-  - rewrite L_eq. cbn [Z.of_nat Z.sub Z.add Z.opp Z.leb Z.compare firstn map rev]. rewrite app_nil_r. reflexivity.
-  - rewrite L_eq. replace (0 <=? Z.of_nat (S k) - 1)%Z with true by lia.
-    replace (Z.of_nat (S k) - 1)%Z with (Z.of_nat k) by lia. rewrite idx_refs_nat.
-    destruct (nth_error_lt_some (xch n) k ltac:(lia)) as [x Ex]. unfold gref in *. rewrite Ex.
-    rewrite IH by lia. rewrite (firstn_succ_nth _ _ _ Ex), map_app, rev_app_distr. cbn [map rev app].
-    rewrite <- app_assoc. reflexivity.
-Qed.
-End DownArr.
-
-Definition cells48_ok (n : xnode xtree) (lo hi : nat) : Prop :=
-  forall t, (lo <= t < hi)%nat -> nth t (xbytes n) 0 = 0 \/
-    (1 <= nth t (xbytes n) 0 <= 48 /\ exists c, nth_error (xch n) (N.to_nat (nth t (xbytes n) 0 - 1)) = Some (Some c)).
-
-Lemma cell48_read : forall n t, cells48_ok n t (S t) -> (t < length (xbytes n))%nat ->
-  exists x, nth_error (xbytes n) t = Some x /\
-    ((x = 0 /\ cell48 (xch n) x = []) \/
-     (x <> 0 /\ exists c, idx_refs (xch n) (Z.of_N (subw 8 x 1)) = Some (Some c) /\ cell48 (xch n) x = [c])).
-Proof.
-  intros n t Hok Hl. exists (nth t (xbytes n) 0). split; [apply nth_error_nth'; exact Hl|].
-  destruct (Hok t ltac:(lia)) as [Hz|(Hr & c & Hc)].
-  - left. rewrite Hz. split; reflexivity.
-  - right. split; [lia|]. exists c. unfold cell48. destruct (N.eqb_spec (nth t (xbytes n) 0) 0); [lia|]. rewrite Hc.
-    split; [|reflexivity]. rewrite subw8_pred by lia.
-    replace (Z.of_N (nth t (xbytes n) 0 - 1)) with (Z.of_nat (N.to_nat (nth t (xbytes n) 0 - 1))) by lia.
-    rewrite idx_refs_nat. exact Hc.
-Qed.
-
-Section Down48.   (* for i := 255; i >= 0; i-- { idx := n48.keys[i]; if idx == 0 { continue }; q = append(q, mk n48.children[idx-1]) } *)
-Context {E : Type} (mk : gref -> E) (L : nat -> xnode xtree -> list E -> Z -> lres ires (list E * Z)).
-Hypothesis L_eq : forall fuel n q i, L fuel n q i =
-  if (0 <=? i)%Z then
-    match fuel with
-    | O => LFuel
-    | S fuel =>
-      match idx_bytes (xbytes n) i with None => LPanic | Some x =>
-        if x =? 0 then L fuel n q (i - 1)%Z
-        else match idx_refs (xch n) (Z.of_N (subw 8 x 1)) with None => LPanic | Some v => L fuel n (q ++ [mk v]) (i - 1)%Z end
-      end
-    end
-  else LDone (q, i).
-Lemma down_48 : forall k n q, (k <= length (xbytes n))%nat -> cells48_ok n 0 k ->
-  L k n q (Z.of_nat k - 1) = LDone (q ++ rev (map mk (map Some (kids48 (xch n) (firstn k (xbytes n))))), (-1)%Z).
-Proof.
-  induction k as [|k IH]; intros n q Hk Hok.
-  - rewrite L_eq. cbn [Z.of_nat Z.sub Z.add Z.opp Z.leb Z.compare firstn kids48 flat_map map rev]. rewrite app_nil_r. reflexivity.
-  - rewrite L_eq. replace (0 <=? Z.of_nat (S k) - 1)%Z with true by lia.
-    replace (Z.of_nat (S k) - 1)%Z with (Z.of_nat k) by lia. rewrite idx_bytes_nat.
-    destruct (cell48_read n k) as (x & Ex & Hx); [intros t Ht; apply Hok; lia|lia|]. rewrite Ex.
-    rewrite (firstn_succ_nth _ _ _ Ex), kids48_app. cbn [kids48 flat_map]. rewrite app_nil_r.
-    assert (Hok' : cells48_ok n 0 k) by (intros t Ht; apply Hok; lia).
-    destruct Hx as [[-> Hc]|(Hne & c & Hr & Hc)]; rewrite Hc.
-    + rewrite N.eqb_refl, IH by (assumption || lia). rewrite app_nil_r. reflexivity.
-    + destruct (N.eqb_spec x 0); [contradiction|]. unfold gref in *. rewrite Hr, IH by (assumption || lia).
-      rewrite !map_app, rev_app_distr. cbn [map rev app]. rewrite <- app_assoc. reflexivity.
-Qed.
-End Down48.
-
-Lemma somes_app1 : forall (l : list (option xtree)) x, somes (l ++ [x]) = somes l ++ match x with Some c => [c] | None => [] end.
-Proof. intros l x. rewrite somes_app. destruct x; reflexivity. Qed.
-
-Section Down256.  (* for i := 255; i >= 0; i-- { if n256.children[i].pointer == nil { continue }; q = append(q, mk n256.children[i]) } *)
-Context {E : Type} (mk : gref -> E) (L : nat -> xnode xtree -> list E -> Z -> lres ires (list E * Z)).
-Hypothesis L_eq : forall fuel n q i, L fuel n q i =
-  if (0 <=? i)%Z then
-    match fuel with
-    | O => LFuel
-    | S fuel =>
-      match idx_refs (xch n) i with None => LPanic | Some v =>
-        if ref_is_nil (ref_pointer v) then L fuel n q (i - 1)%Z
-        else match idx_refs (xch n) i with None => LPanic | Some v' => L fuel n (q ++ [mk v']) (i - 1)%Z end
-      end
-    end
-  else LDone (q, i).
-Lemma down_256 : forall k n q, (k <= length (xch n))%nat ->
-  L k n q (Z.of_nat k - 1) = LDone (q ++ rev (map mk (map Some (somes (firstn k (xch n))))), (-1)%Z).
-Proof.
-  induction k as [|k IH]; intros n q Hk.
-  - rewrite L_eq. cbn [Z.of_nat Z.sub Z.add Z.opp Z.leb Z.compare firstn somes map rev]. rewrite app_nil_r. reflexivity.
-  - rewrite L_eq. replace (0 <=? Z.of_nat (S k) - 1)%Z with true by lia.
-    replace (Z.of_nat (S k) - 1)%Z with (Z.of_nat k) by lia. rewrite idx_refs_nat.
-    destruct (nth_error_lt_some (xch n) k ltac:(lia)) as [x Ex]. unfold gref in *. rewrite Ex.
-    rewrite (firstn_succ_nth _ _ _ Ex), somes_app1.
-    destruct x as [c|]; cbn [ref_pointer ref_is_nil].
-    + rewrite IH by lia. rewrite !map_app, rev_app_distr. cbn [map rev app]. rewrite <- app_assoc. reflexivity.
-    + rewrite IH by lia. rewrite app_nil_r. reflexivity.
-Qed.
-End Down256.
-
-Section UpArr.    (* for i := uint8(0); i < n.childrenLen; i++ { q = append(q, mk n.children[i]) } *)
-Context {E : Type} (mk : gref -> E) (L : nat -> xnode xtree -> list E -> N -> lres ires (list E * N)).
-Hypothesis L_eq : forall fuel n q i, L fuel n q i =
-  if i <? xlen (xh n) then
-    match fuel with
-    | O => LFuel
-    | S fuel => match idx_refs (xch n) (Z.of_N i) with None => LPanic | Some v => L fuel n (q ++ [mk v]) (addw 8 i 1) end
-    end
-  else LDone (q, i).
-Lemma up_arr : forall m j n q, (j + m = N.to_nat (xlen (xh n)))%nat -> xlen (xh n) < 256 ->
-  (N.to_nat (xlen (xh n)) <= length (xch n))%nat ->
-  L m n q (N.of_nat j) = LDone (q ++ map mk (firstn m (skipn j (xch n))), xlen (xh n)).
-Proof.
-  induction m as [|m IH]; intros j n q Hj Hlt Hl.
-  - rewrite L_eq. replace (N.of_nat j <? xlen (xh n)) with false by (symmetry; apply N.ltb_ge; lia).
-    cbn [firstn map]. rewrite app_nil_r. f_equal. f_equal. lia.
-  - rewrite L_eq. replace (N.of_nat j <? xlen (xh n)) with true by (symmetry; apply N.ltb_lt; lia).
-    replace (Z.of_N (N.of_nat j)) with (Z.of_nat j) by lia. rewrite idx_refs_nat.
-    destruct (nth_error_lt_some (xch n) j ltac:(lia)) as [x Ex]. unfold gref in *. rewrite Ex.
-    replace (addw 8 (N.of_nat j) 1) with (N.of_nat (S j))
-      by (unfold addw; change (2 ^ 8) with 256; rewrite N.mod_small by lia; lia).
-    rewrite IH by lia. rewrite (skipn_cons_nth _ _ _ Ex). cbn [firstn map]. rewrite <- app_assoc. reflexivity.
-Qed.
-End UpArr.
-
-Section Up48.     (* for i := 0; i < 256; i++ { idx := n48.keys[i]; if idx == 0 { continue }; q = append(q, mk n48.children[idx-1]) } *)
-Context {E : Type} (mk : gref -> E) (L : nat -> xnode xtree -> list E -> Z -> lres ires (list E * Z)).
-Hypothesis L_eq : forall fuel n q i, L fuel n q i =
-  if (i <? 256)%Z then
-    match fuel with
-    | O => LFuel
-    | S fuel =>
-      match idx_bytes (xbytes n) i with None => LPanic | Some x =>
-        if x =? 0 then L fuel n q (i + 1)%Z
-        else match idx_refs (xch n) (Z.of_N (subw 8 x 1)) with None => LPanic | Some v => L fuel n (q ++ [mk v]) (i + 1)%Z end
-      end
-    end
-  else LDone (q, i).
-Lemma up_48 : forall m j n q, (j + m = 256)%nat -> length (xbytes n) = 256%nat -> cells48_ok n j 256 ->
-  L m n q (Z.of_nat j) = LDone (q ++ map mk (map Some (kids48 (xch n) (firstn m (skipn j (xbytes n))))), 256%Z).
-Proof.
-  induction m as [|m IH]; intros j n q Hj Hl Hok.
-  - rewrite L_eq. replace (Z.of_nat j <? 256)%Z with false by (symmetry; apply Z.ltb_ge; lia).
-    cbn [firstn kids48 flat_map map]. rewrite app_nil_r. f_equal. f_equal. lia.
-  - rewrite L_eq. replace (Z.of_nat j <? 256)%Z with true by (symmetry; apply Z.ltb_lt; lia).
-    rewrite idx_bytes_nat.
-    destruct (cell48_read n j) as (x & Ex & Hx); [intros t Ht; apply Hok; lia|lia|]. rewrite Ex.
-    rewrite (skipn_cons_nth _ _ _ Ex). cbn [firstn kids48 flat_map]. fold (kids48 (xch n) (firstn m (skipn (S j) (xbytes n)))).
-    replace (Z.of_nat j + 1)%Z with (Z.of_nat (S j)) by lia.
-    assert (Hok' : cells48_ok n (S j) 256) by (intros t Ht; apply Hok; lia).
-    destruct Hx as [[-> Hc]|(Hne & c & Hr & Hc)]; rewrite Hc.
-    + rewrite N.eqb_refl, IH by (assumption || lia). reflexivity.
-    + destruct (N.eqb_spec x 0); [contradiction|]. unfold gref in *. rewrite Hr, IH by (assumption || lia).
-      cbn [app map]. rewrite <- app_assoc. reflexivity.
-Qed.
-End Up48.
-
-Section Up256.    (* for i := 0; i < 256; i++ { if n256.children[i].pointer == nil { continue }; q = append(q, mk n256.children[i]) } *)
-Context {E : Type} (mk : gref -> E) (L : nat -> xnode xtree -> list E -> Z -> lres ires (list E * Z)).
-Hypothesis L_eq : forall fuel n q i, L fuel n q i =
-  if (i <? 256)%Z then
-    match fuel with
-    | O => LFuel
-    | S fuel =>
-      match idx_refs (xch n) i with None => LPanic | Some v =>
-        if ref_is_nil (ref_pointer v) then L fuel n q (i + 1)%Z
-        else match idx_refs (xch n) i with None => LPanic | Some v' => L fuel n (q ++ [mk v']) (i + 1)%Z end
-      end
-    end
-  else LDone (q, i).
-Lemma up_256 : forall m j n q, (j + m = 256)%nat -> length (xch n) = 256%nat ->
-  L m n q (Z.of_nat j) = LDone (q ++ map mk (map Some (somes (firstn m (skipn j (xch n))))), 256%Z).
-Proof.
-  induction m as [|m IH]; intros j n q Hj Hl.
-  - rewrite L_eq. replace (Z.of_nat j <? 256)%Z with false by (symmetry; apply Z.ltb_ge; lia).
-    cbn [firstn somes map]. rewrite app_nil_r. f_equal. f_equal. lia.
-  - rewrite L_eq. replace (Z.of_nat j <? 256)%Z with true by (symmetry; apply Z.ltb_lt; lia).
-    rewrite idx_refs_nat.
-    destruct (nth_error_lt_some (xch n) j ltac:(lia)) as [x Ex]. unfold gref in *. rewrite Ex.
-    rewrite (skipn_cons_nth _ _ _ Ex). cbn [firstn].
-    replace (Z.of_nat j + 1)%Z with (Z.of_nat (S j)) by lia.
-    destruct x as [c|]; cbn [ref_pointer ref_is_nil somes].
-    + rewrite IH by lia. cbn [map]. rewrite <- app_assoc. reflexivity.
-    + rewrite IH by lia. reflexivity.
-Qed.
-End Up256.
-
-(* ================= 4. all ================= *)
-Definition idref (v : gref) : gref := v.
-Lemma map_idref : forall l, map idref l = l.
-Proof. induction l as [|x l IH]; cbn [map]; [reflexivity|rewrite IH; reflexivity]. Qed.
-
-Lemma all_down4 : forall k n q, (k <= length (xch n))%nat ->
-  g_all_loop2 k n q (Z.of_nat k - 1) = LDone (q ++ rev (map idref (firstn k (xch n))), (-1)%Z).
-Proof. apply down_arr. intros [|fuel] n q i; reflexivity. Qed.
-Lemma all_down16 : forall k n q, (k <= length (xch n))%nat ->
-  g_all_loop3 k n q (Z.of_nat k - 1) = LDone (q ++ rev (map idref (firstn k (xch n))), (-1)%Z).
-Proof. apply down_arr. intros [|fuel] n q i; reflexivity. Qed.
-Lemma all_down48 : forall k n q, (k <= length (xbytes n))%nat -> cells48_ok n 0 k ->
-  g_all_loop4 k n q (Z.of_nat k - 1) = LDone (q ++ rev (map idref (map Some (kids48 (xch n) (firstn k (xbytes n))))), (-1)%Z).
-Proof. apply down_48. intros [|fuel] n q i; reflexivity. Qed.
-Lemma all_down256 : forall k n q, (k <= length (xch n))%nat ->
-  g_all_loop5 k n q (Z.of_nat k - 1) = LDone (q ++ rev (map idref (map Some (somes (firstn k (xch n))))), (-1)%Z).
-Proof. apply down_256. intros [|fuel] n q i; reflexivity. Qed.
-
-(* one iteration of a main loop at an inner node, children pushed last to first: the four cases of switch n.tag *)
-Ltac fwd_inner Hx d4 d16 d48 d256 :=
-  match goal with |- context [XInner ?n] =>
-    let h := fresh "h" in let keys := fresh "keys" in let ch := fresh "ch" in let idx := fresh "idx" in
-    destruct n as [h keys ch|h keys ch|h idx ch|h ch];
-    cbn [ref_tag gkind_eqb ref_pointer cast_node4 cast_node16 cast_node48 cast_node256 xh]; cbv zeta;
-    [ let Hc := fresh "Hc" in let Hm := fresh "Hm" in
-      destruct (xwf4_inv _ _ _ Hx) as (Hc & _ & Hm & _);
-      replace (Z.of_N (xlen h) - 1)%Z with (Z.of_nat (N.to_nat (xlen h)) - 1)%Z by lia;
-      replace (Z.to_nat (Z.of_nat (N.to_nat (xlen h)) - 1 - 0 + 1)) with (N.to_nat (xlen h)) by lia;
-      rewrite d4 by (cbn [xch]; lia); cbn [xch]; rewrite (xkids4 _ _ _ Hx)
-    | let Hc := fresh "Hc" in let Hm := fresh "Hm" in
-      destruct (xwf16_inv _ _ _ Hx) as (_ & Hc & _ & Hm & _);
-      replace (Z.of_N (xlen h) - 1)%Z with (Z.of_nat (N.to_nat (xlen h)) - 1)%Z by lia;
-      replace (Z.to_nat (Z.of_nat (N.to_nat (xlen h)) - 1 - 0 + 1)) with (N.to_nat (xlen h)) by lia;
-      rewrite d16 by (cbn [xch]; lia); cbn [xch]; rewrite (xkids16 _ _ _ Hx)
-    | let Hli := fresh "Hli" in
-      destruct (xwf48_inv _ _ _ Hx) as (Hli & _ & _);
-      change (Z.to_nat (255 - 0 + 1)) with 256%nat; change 255%Z with (Z.of_nat 256 - 1)%Z;
-      rewrite d48 by (cbn [xbytes]; first [lia | (intros t Ht; apply (xwf48_cell _ _ _ Hx); lia)]);
-      cbn [xbytes xch]; rewrite firstn_all2 by lia; rewrite <- xkids48 with (h := h)
-    | let Hlc := fresh "Hlc" in
-      pose proof (xwf256_inv _ _ Hx) as Hlc;
-      change (Z.to_nat (255 - 0 + 1)) with 256%nat; change 255%Z with (Z.of_nat 256 - 1)%Z;
-      rewrite d256 by (cbn [xch]; lia);
-      cbn [xch]; rewrite firstn_all2 by lia; rewrite <- xkids256 with (h := h) ]
-  end.
-
-Lemma all_inner : forall fuel ans n q i acc, xwf n ->
-  g_all_loop1 (S fuel) ans (q ++ [Some (XInner n)]) i acc = g_all_loop1 fuel ans (q ++ rev (map Some (xkids n))) i acc.
-Proof.
-  intros fuel ans n q i acc Hx. cbn [g_all_loop1]. rewrite len_nonzero, idx_refs_last, slice_to_last.
-  fwd_inner Hx all_down4 all_down16 all_down48 all_down256; rewrite map_idref; reflexivity.
-Qed.
-
-Lemma stack_push : forall d cs xs, with_depth d (map tabs (cs ++ xs)) = with_depth d (map tabs cs) ++ with_depth d (map tabs xs).
-Proof. intros. unfold with_depth. rewrite !map_app. reflexivity. Qed.
-Lemma q_push_fwd : forall cs xs, map Some (rev xs) ++ rev (map Some cs) = map (@Some xtree) (rev (cs ++ xs)).
-Proof. intros. rewrite rev_app_distr, map_app, <- map_rev. reflexivity. Qed.
-Lemma q_pop : forall (x : xtree) xs, map Some (rev (x :: xs)) = map Some (rev xs) ++ [Some x].
-Proof. intros. cbn [rev]. rewrite map_app. reflexivity. Qed.
-
-(* all(): for every budget and every stack of well-formed raw trees the main loop is the model's walk *)
-Theorem gen_all_loop_eq : forall fuel xs ans i acc, Forall xtwf xs ->
-  ires_abs (g_all_loop1 fuel ans (map Some (rev xs)) i acc) =
-  Some (walk (fun _ => Deliver) expand_fwd fuel (with_depth 0 (map tabs xs)) ans i (map tabs acc)).
-Proof.
-  induction fuel as [|fuel IH]; intros xs ans i acc HF; [reflexivity|].
-  destruct xs as [|x xs]; [reflexivity|].
-  apply Forall_cons_iff in HF. destruct HF as [Hx HF]. rewrite q_pop.
-  destruct x as [gk tk v|n].
-  - cbn [g_all_loop1]. rewrite len_nonzero, idx_refs_last, slice_to_last.
-    cbn [ref_tag gkind_eqb ref_pointer cast_leaf]. cbv zeta. cbn [with_depth map tabs walk].
-    destruct (ans i); cbn [negb]; [|reflexivity].
-    exact (IH xs ans (S i) (XLeaf gk tk v :: acc) HF).
-  - destruct (xtwf_inv _ Hx) as [Hxw _]. rewrite (all_inner fuel ans n _ i acc Hxw), q_push_fwd.
-    rewrite IH by (apply Forall_app; split; [apply xkids_xtwf; exact Hx|exact HF]).
-    cbn [with_depth map tabs walk]. fold (nabs n). unfold expand_fwd. rewrite nchildren_nabs, stack_push. reflexivity.
-Qed.
-
-Theorem gen_all_eq : forall fuel t ans, xtwf t ->
-  ires_abs (g_all fuel (Some t) ans) = Some (walk (fun _ => Deliver) expand_fwd fuel [(tabs t, 0%nat)] ans 0 []).
-Proof.
-  intros fuel t ans Hx. unfold g_all. cbv zeta. cbn [ref_pointer ref_is_nil app].
-  exact (gen_all_loop_eq fuel [t] ans 0%nat [] (Forall_cons _ Hx (Forall_nil _))).
-Qed.
-(* a nil root: the closure returns at once, yield is not called *)
-Theorem gen_all_nil : forall fuel ans, g_all fuel None ans = IDone ByReturn 0 [].
-Proof. reflexivity. Qed.
-
-(* ================= 5. filter ================= *)
-Lemma filter_down4 : forall k n q, (k <= length (xch n))%nat ->
-  g_filter_loop2 k n q (Z.of_nat k - 1) = LDone (q ++ rev (map idref (firstn k (xch n))), (-1)%Z).
-Proof. apply down_arr. intros [|fuel] n q i; reflexivity. Qed.
-Lemma filter_down16 : forall k n q, (k <= length (xch n))%nat ->
-  g_filter_loop3 k n q (Z.of_nat k - 1) = LDone (q ++ rev (map idref (firstn k (xch n))), (-1)%Z).
-Proof. apply down_arr. intros [|fuel] n q i; reflexivity. Qed.
-Lemma filter_down48 : forall k n q, (k <= length (xbytes n))%nat -> cells48_ok n 0 k ->
-  g_filter_loop4 k n q (Z.of_nat k - 1) = LDone (q ++ rev (map idref (map Some (kids48 (xch n) (firstn k (xbytes n))))), (-1)%Z).
-Proof. apply down_48. intros [|fuel] n q i; reflexivity. Qed.
-Lemma filter_down256 : forall k n q, (k <= length (xch n))%nat ->
-  g_filter_loop5 k n q (Z.of_nat k - 1) = LDone (q ++ rev (map idref (map Some (somes (firstn k (xch n))))), (-1)%Z).
-Proof. apply down_256. intros [|fuel] n q i; reflexivity. Qed.
-
-Lemma filter_inner : forall fuel pr ans n q i acc, xwf n ->
-  g_filter_loop1 (S fuel) pr ans (q ++ [Some (XInner n)]) i acc = g_filter_loop1 fuel pr ans (q ++ rev (map Some (xkids n))) i acc.
-Proof.
-  intros fuel pr ans n q i acc Hx. cbn [g_filter_loop1]. rewrite len_nonzero, idx_refs_last, slice_to_last.
-  fwd_inner Hx filter_down4 filter_down16 filter_down48 filter_down256; rewrite map_idref; reflexivity.
-Qed.
-
-(* filter(): predicate is an arbitrary function of the leaf; pr is its reading on raw leaves *)
-Theorem gen_filter_loop_eq : forall fuel pr pred xs ans i acc, (forall l, pr l = pred (tabs l)) -> Forall xtwf xs ->
-  ires_abs (g_filter_loop1 fuel pr ans (map Some (rev xs)) i acc) =
-  Some (walk (fun l => if pred l then Deliver else Skip) expand_fwd fuel (with_depth 0 (map tabs xs)) ans i (map tabs acc)).
-Proof.
-  induction fuel as [|fuel IH]; intros pr pred xs ans i acc Hpr HF; [reflexivity|].
-  destruct xs as [|x xs]; [reflexivity|].
-  apply Forall_cons_iff in HF. destruct HF as [Hx HF]. rewrite q_pop.
-  destruct x as [gk tk v|n].
-  - cbn [g_filter_loop1]. rewrite len_nonzero, idx_refs_last, slice_to_last.
-    cbn [ref_tag gkind_eqb ref_pointer cast_leaf]. cbv zeta. cbn [with_depth map tabs walk].
-    rewrite (Hpr (XLeaf gk tk v)). cbn [tabs]. destruct (pred (Leaf gk tk v)).
-    + destruct (ans i); cbn [negb]; [|reflexivity].
-      exact (IH pr pred xs ans (S i) (XLeaf gk tk v :: acc) Hpr HF).
-    + exact (IH pr pred xs ans i acc Hpr HF).
-  - destruct (xtwf_inv _ Hx) as [Hxw _]. rewrite (filter_inner fuel pr ans n _ i acc Hxw), q_push_fwd.
-    rewrite (IH pr pred) by (first [exact Hpr | apply Forall_app; split; [apply xkids_xtwf; exact Hx|exact HF]]).
-    cbn [with_depth map tabs walk]. fold (nabs n). unfold expand_fwd. rewrite nchildren_nabs, stack_push. reflexivity.
-Qed.
-Theorem gen_filter_eq : forall fuel t pr pred ans, (forall l, pr l = pred (tabs l)) -> xtwf t ->
-  ires_abs (g_filter fuel (Some t) pr ans) =
-  Some (walk (fun l => if pred l then Deliver else Skip) expand_fwd fuel [(tabs t, 0%nat)] ans 0 []).
-Proof.
-  intros fuel t pr pred ans Hpr Hx. unfold g_filter. cbv zeta. cbn [ref_pointer ref_is_nil app].
-  exact (gen_filter_loop_eq fuel pr pred [t] ans 0%nat [] Hpr (Forall_cons _ Hx (Forall_nil _))).
-Qed.
-Theorem gen_filter_nil : forall fuel pr ans, g_filter fuel None pr ans = IDone ByReturn 0 [].
-Proof. reflexivity. Qed.
-
-(* ================= 6. backward ================= *)
-Lemma backward_up4 : forall m j n q, (j + m = N.to_nat (xlen (xh n)))%nat -> xlen (xh n) < 256 ->
-  (N.to_nat (xlen (xh n)) <= length (xch n))%nat ->
-  g_backward_loop2 m n q (N.of_nat j) = LDone (q ++ map idref (firstn m (skipn j (xch n))), xlen (xh n)).
-Proof. apply up_arr. intros [|fuel] n q i; reflexivity. Qed.
-Lemma backward_up16 : forall m j n q, (j + m = N.to_nat (xlen (xh n)))%nat -> xlen (xh n) < 256 ->
-  (N.to_nat (xlen (xh n)) <= length (xch n))%nat ->
-  g_backward_loop3 m n q (N.of_nat j) = LDone (q ++ map idref (firstn m (skipn j (xch n))), xlen (xh n)).
-Proof. apply up_arr. intros [|fuel] n q i; reflexivity. Qed.
-Lemma backward_up48 : forall m j n q, (j + m = 256)%nat -> length (xbytes n) = 256%nat -> cells48_ok n j 256 ->
-  g_backward_loop4 m n q (Z.of_nat j) = LDone (q ++ map idref (map Some (kids48 (xch n) (firstn m (skipn j (xbytes n))))), 256%Z).
-Proof. apply up_48. intros [|fuel] n q i; reflexivity. Qed.
-Lemma backward_up256 : forall m j n q, (j + m = 256)%nat -> length (xch n) = 256%nat ->
-  g_backward_loop5 m n q (Z.of_nat j) = LDone (q ++ map idref (map Some (somes (firstn m (skipn j (xch n))))), 256%Z).
-Proof. apply up_256. intros [|fuel] n q i; reflexivity. Qed.
-
-Lemma backward_inner : forall fuel ans n q i acc, xwf n ->
-  g_backward_loop1 (S fuel) ans (q ++ [Some (XInner n)]) i acc = g_backward_loop1 fuel ans (q ++ map Some (xkids n)) i acc.
-Proof.
-  intros fuel ans n q i acc Hx. cbn [g_backward_loop1]. rewrite len_nonzero, idx_refs_last, slice_to_last.
-  destruct n as [h keys ch|h keys ch|h idx ch|h ch];
-    cbn [ref_tag gkind_eqb ref_pointer cast_node4 cast_node16 cast_node48 cast_node256 xh]; cbv zeta.
-  - destruct (xwf4_inv _ _ _ Hx) as (Hc & _ & Hm & _).
-    replace (N.to_nat (xlen h - 0)) with (N.to_nat (xlen h)) by lia.
-    pose proof (backward_up4 (N.to_nat (xlen h)) 0 (X4 h keys ch) q) as E. cbn [N.of_nat xh xch skipn] in E.
-    rewrite E by lia. rewrite map_idref, (xkids4 _ _ _ Hx). reflexivity.
-  - destruct (xwf16_inv _ _ _ Hx) as (_ & Hc & _ & Hm & _).
-    replace (N.to_nat (xlen h - 0)) with (N.to_nat (xlen h)) by lia.
-    pose proof (backward_up16 (N.to_nat (xlen h)) 0 (X16 h keys ch) q) as E. cbn [N.of_nat xh xch skipn] in E.
-    rewrite E by lia. rewrite map_idref, (xkids16 _ _ _ Hx). reflexivity.
-  - destruct (xwf48_inv _ _ _ Hx) as (Hli & _ & _). change (Z.to_nat (256 - 0)) with 256%nat.
-    pose proof (backward_up48 256 0 (X48 h idx ch) q) as E. cbn [Z.of_nat xbytes xch skipn] in E.
-    rewrite E by (first [lia | (intros t Ht; apply (xwf48_cell _ _ _ Hx); lia)]).
-    rewrite map_idref, firstn_all2 by lia. rewrite <- xkids48 with (h := h). reflexivity.
-  - pose proof (xwf256_inv _ _ Hx) as Hlc. change (Z.to_nat (256 - 0)) with 256%nat.
-    pose proof (backward_up256 256 0 (X256 h ch) q) as E. cbn [Z.of_nat xch skipn] in E.
-    rewrite E by lia. rewrite map_idref, firstn_all2 by lia. rewrite <- xkids256 with (h := h). reflexivity.
-Qed.
-
-Lemma q_push_bwd : forall cs xs, map Some (rev xs) ++ map Some cs = map (@Some xtree) (rev (rev cs ++ xs)).
-Proof. intros. rewrite rev_app_distr, rev_involutive, map_app. reflexivity. Qed.
-
-Theorem gen_backward_loop_eq : forall fuel xs ans i acc, Forall xtwf xs ->
-  ires_abs (g_backward_loop1 fuel ans (map Some (rev xs)) i acc) =
-  Some (walk (fun _ => Deliver) expand_bwd fuel (with_depth 0 (map tabs xs)) ans i (map tabs acc)).
-Proof.
-  induction fuel as [|fuel IH]; intros xs ans i acc HF; [reflexivity|].
-  destruct xs as [|x xs]; [reflexivity|].
-  apply Forall_cons_iff in HF. destruct HF as [Hx HF]. rewrite q_pop.
-  destruct x as [gk tk v|n].
-  - cbn [g_backward_loop1]. rewrite len_nonzero, idx_refs_last, slice_to_last.
-    cbn [ref_tag gkind_eqb ref_pointer cast_leaf]. cbv zeta. cbn [with_depth map tabs walk].
-    destruct (ans i); cbn [negb]; [|reflexivity].
-    exact (IH xs ans (S i) (XLeaf gk tk v :: acc) HF).
-  - destruct (xtwf_inv _ Hx) as [Hxw _]. rewrite (backward_inner fuel ans n _ i acc Hxw), q_push_bwd.
-    rewrite IH by (apply Forall_app; split; [apply Forall_rev, xkids_xtwf; exact Hx|exact HF]).
-    cbn [with_depth map tabs walk]. fold (nabs n). unfold expand_bwd. rewrite nchildren_nabs, stack_push, map_rev. reflexivity.
-Qed.
-Theorem gen_backward_eq : forall fuel t ans, xtwf t ->
-  ires_abs (g_backward fuel (Some t) ans) = Some (walk (fun _ => Deliver) expand_bwd fuel [(tabs t, 0%nat)] ans 0 []).
-Proof.
-  intros fuel t ans Hx. unfold g_backward. cbv zeta. cbn [ref_pointer ref_is_nil app].
-  exact (gen_backward_loop_eq fuel [t] ans 0%nat [] (Forall_cons _ Hx (Forall_nil _))).
-Qed.
-Theorem gen_backward_nil : forall fuel ans, g_backward fuel None ans = IDone ByReturn 0 [].
-Proof. reflexivity. Qed.
-
-(* ================= 7. rangeScan ================= *)
-Definition mkent (cd : Z) (v : gref) : gref * Z := (v, cd).
-Lemma range_down4 : forall cd k n q, (k <= length (xch n))%nat ->
-  g_rangeScan_loop2 k cd n q (Z.of_nat k - 1) = LDone (q ++ rev (map (mkent cd) (firstn k (xch n))), (-1)%Z).
-Proof. intros cd. apply (down_arr (mkent cd) (fun fuel => g_rangeScan_loop2 fuel cd)). intros [|fuel] n q i; reflexivity. Qed.
-Lemma range_down16 : forall cd k n q, (k <= length (xch n))%nat ->
-  g_rangeScan_loop3 k cd n q (Z.of_nat k - 1) = LDone (q ++ rev (map (mkent cd) (firstn k (xch n))), (-1)%Z).
-Proof. intros cd. apply (down_arr (mkent cd) (fun fuel => g_rangeScan_loop3 fuel cd)). intros [|fuel] n q i; reflexivity. Qed.
-Lemma range_down48 : forall cd k n q, (k <= length (xbytes n))%nat -> cells48_ok n 0 k ->
-  g_rangeScan_loop4 k cd n q (Z.of_nat k - 1) = LDone (q ++ rev (map (mkent cd) (map Some (kids48 (xch n) (firstn k (xbytes n))))), (-1)%Z).
-Proof. intros cd. apply (down_48 (mkent cd) (fun fuel => g_rangeScan_loop4 fuel cd)). intros [|fuel] n q i; reflexivity. Qed.
-Lemma range_down256 : forall cd k n q, (k <= length (xch n))%nat ->
-  g_rangeScan_loop5 k cd n q (Z.of_nat k - 1) = LDone (q ++ rev (map (mkent cd) (map Some (somes (firstn k (xch n))))), (-1)%Z).
-Proof. intros cd. apply (down_256 (mkent cd) (fun fuel => g_rangeScan_loop5 fuel cd)). intros [|fuel] n q i; reflexivity. Qed.
-
-(* the pruning test of one iteration, as the model states it *)
-Definition pruned (search : list N) (h : xhdr) (d : nat) : bool :=
-  if (0 <? xplen h)%nat && (d <? length search)%nat then
-    (lcpn (Nat.min (pl_cap (xabs_hdr h)) (Nat.min (length search - d) maxPrefixLen)) (xprefix h) (skipn d search) =? 0)%nat
-  else false.
-Lemma expand_range_nabs : forall search n d,
-  expand_range search (nabs n) d =
-  if pruned search (xh n) d then None else Some (with_depth (d + xplen (xh n) + 1) (map tabs (xkids n))).
-Proof.
-  intros search n d. unfold expand_range, pruned. rewrite nhdr_nabs, nchildren_nabs. cbn [xabs_hdr prefixLen prefix]. reflexivity.
-Qed.
-Lemma lcpn_firstn : forall m a c p s, (m <= a)%nat -> (m <= c)%nat -> lcpn m (firstn a p) (firstn c s) = lcpn m p s.
-Proof.
-  induction m as [|m IH]; intros a c p s Ha Hc; [destruct p, s, a, c; reflexivity|].
-  destruct a as [|a]; [lia|]. destruct c as [|c]; [lia|].
-  destruct p as [|x p]; destruct s as [|y s]; cbn [firstn lcpn]; try reflexivity.
-  destruct (x =? y); [|reflexivity]. rewrite IH by lia. reflexivity.
-Qed.
-
-(* the compressed-path test as the Go code computes it: both slices in range, longestCommonPrefix on them *)
-Lemma prune_test : forall search h d, length (xprefix h) = maxPrefixLen ->
-  (0 <? xplen h)%nat && (d <? length search)%nat = true ->
-  exists nodeKey sl,
-    slice_to (xprefix h) (Z.of_N (N.min g_maxPrefixLen (hdr_prefixLen h))) = Some nodeKey /\
-    slice_from_to search (Z.of_nat d) (Z.of_nat d + Z.min (Z.of_nat (length search) - Z.of_nat d) (Z.of_N g_maxPrefixLen)) = Some sl /\
-    exists r, g_longestCommonPrefix nodeKey sl 0 = GRet r /\ (r =? 0)%Z = pruned search h d.
-Proof.
-  intros search h d Hpl Hc. unfold pruned. rewrite Hc. apply andb_prop in Hc. destruct Hc as [H1 H2].
-  apply Nat.ltb_lt in H1. apply Nat.ltb_lt in H2.
-  set (a := Nat.min maxPrefixLen (xplen h)). set (c := Nat.min (length search - d) maxPrefixLen).
-  exists (firstn a (xprefix h)), (firstn c (skipn d search)).
-  split. { replace (Z.of_N (N.min g_maxPrefixLen (hdr_prefixLen h))) with (Z.of_nat a) by (unfold hdr_prefixLen; rewrite g_maxPrefixLen_val; lia).
-           apply slice_to_nat. lia. }
-  split. { replace (Z.min (Z.of_nat (length search) - Z.of_nat d) (Z.of_N g_maxPrefixLen)) with (Z.of_nat c) by (rewrite g_maxPrefixLen_val; lia).
-           apply slice_from_to_nat. lia. }
-  exists (Z.of_nat (longestCommonPrefix (firstn a (xprefix h)) (firstn c (skipn d search)) 0)).
-  split; [exact (gen_longestCommonPrefix_eq _ _ 0%nat)|].
-  unfold longestCommonPrefix. cbn [skipn]. rewrite Nat.sub_0_r, !firstn_length, skipn_length.
-  replace (Nat.min (Nat.min a (length (xprefix h))) (Nat.min c (length search - d))) with (Nat.min a c) by lia.
-  rewrite lcpn_firstn by lia. unfold pl_cap. cbn [xabs_hdr prefixLen]. fold a.
-  match goal with |- (Z.of_nat ?x =? 0)%Z = (?y =? 0)%nat => change y with x; destruct (Nat.eqb_spec x 0); destruct (Z.eqb_spec (Z.of_nat x) 0); try reflexivity; lia end.
-Qed.
-
-Ltac range_finish Hpl :=
-  rewrite map_map; unfold mkent;
-  match goal with |- context [hdr_prefixLen ?h] =>
-    match goal with |- context [(Z.of_nat ?d + Z.of_N (hdr_prefixLen h) + 1)%Z] =>
-      match goal with |- context [Z.of_nat (length ?search)] =>
-        replace (Z.of_nat d + Z.of_N (hdr_prefixLen h) + 1)%Z with (Z.of_nat (d + xplen h + 1)) by (unfold hdr_prefixLen; lia);
-        replace ((0 <? hdr_prefixLen h) && (Z.of_nat d <? Z.of_nat (length search))%Z)
-          with ((0 <? xplen h)%nat && (d <? length search)%nat)
-          by (unfold hdr_prefixLen; destruct (Nat.ltb_spec 0 (xplen h)); destruct (N.ltb_spec 0 (N.of_nat (xplen h)));
-              destruct (Nat.ltb_spec d (length search)); destruct (Z.ltb_spec (Z.of_nat d) (Z.of_nat (length search)));
-              try reflexivity; lia);
-        let Ec := fresh "Ec" in
-        destruct ((0 <? xplen h)%nat && (d <? length search)%nat) eqn:Ec;
-        [ let nk := fresh "nk" in let sl := fresh "sl" in let r := fresh "r" in
-          let E1 := fresh "E1" in let E2 := fresh "E2" in let E3 := fresh "E3" in let E4 := fresh "E4" in
-          destruct (prune_test search h d Hpl Ec) as (nk & sl & E1 & E2 & r & E3 & E4);
-          rewrite E1, E2, E3, E4; destruct (pruned search h d); reflexivity
-        | unfold pruned; rewrite Ec; reflexivity ]
-      end end end.
-
-Lemma range_inner : forall fuel gs ge search ans n d q i acc, xwf n ->
-  g_rangeScan_loop1 (S fuel) gs ge search ans (q ++ [(Some (XInner n), Z.of_nat d)]) i acc =
-  g_rangeScan_loop1 fuel gs ge search ans
-    (if pruned search (xh n) d then q
-     else q ++ rev (map (fun c => (Some c, Z.of_nat (d + xplen (xh n) + 1))) (xkids n))) i acc.
-Proof.
-  intros fuel gs ge search ans n d q i acc Hx. pose proof (xwf_prefix_len n Hx) as Hpl.
-  cbn [g_rangeScan_loop1]. rewrite len_nonzero, !idx_entries_last, slice_to_last. cbn [fst snd ref_node].
-  fwd_inner Hx range_down4 range_down16 range_down48 range_down256; cbn [xh] in Hpl; range_finish Hpl.
-Qed.
-
-Definition ent (e : xtree * nat) : option xtree * Z := (Some (fst e), Z.of_nat (snd e)).
-Definition ment (e : xtree * nat) : tree * nat := (tabs (fst e), snd e).
-
-Lemma cmp_lt : forall a b, (bytes_compare a b <? 0)%Z = match lex_cmp a b with Lt => true | _ => false end.
-Proof. intros a b. unfold bytes_compare. destruct (lex_cmp a b); reflexivity. Qed.
-Lemma cmp_gt : forall a b, (0 <? bytes_compare a b)%Z = match lex_cmp a b with Gt => true | _ => false end.
-Proof. intros a b. unfold bytes_compare. destruct (lex_cmp a b); reflexivity. Qed.
-
-(* rangeScan(): stack entries carry their depth; gs ge = start end (compared with getKey()), search = the common
-   prefix of the two transformed bounds *)
-Theorem gen_rangeScan_loop_eq : forall fuel gs ge search xs ans i acc, Forall (fun e => xtwf (fst e)) xs ->
-  ires_abs (g_rangeScan_loop1 fuel gs ge search ans (map ent (rev xs)) i acc) =
-  Some (walk (range_leaf_act gs ge) (expand_range search) fuel (map ment xs) ans i (map tabs acc)).
-Proof.
-  induction fuel as [|fuel IH]; intros gs ge search xs ans i acc HF; [reflexivity|].
-  destruct xs as [|[x d] xs]; [reflexivity|].
-  apply Forall_cons_iff in HF. destruct HF as [Hx HF]. cbn [fst] in Hx.
-  cbn [rev]. rewrite map_app. cbn [map]. unfold ent at 2. cbn [fst snd].
-  destruct x as [gk tk v|n].
-  - cbn [g_rangeScan_loop1]. rewrite len_nonzero, !idx_entries_last, slice_to_last. cbn [fst snd].
-    cbn [ref_tag gkind_eqb ref_pointer cast_leaf xleaf_gk]. cbv zeta. rewrite cmp_lt, cmp_gt.
-    cbn [map ment fst snd tabs walk]. unfold range_leaf_act. cbn [leaf_gk].
-    destruct (lex_cmp gk gs); [| exact (IH gs ge search xs ans i acc HF) |];
-      (destruct (lex_cmp gk ge); [| |reflexivity]);
-      (destruct (ans i); cbn [negb]; [exact (IH gs ge search xs ans (S i) (XLeaf gk tk v :: acc) HF)|reflexivity]).
-  - destruct (xtwf_inv _ Hx) as [Hxw _]. rewrite (range_inner fuel gs ge search ans n d _ i acc Hxw).
-    cbn [map ment fst snd tabs walk]. fold (nabs n). rewrite expand_range_nabs.
-    destruct (pruned search (xh n) d).
-    + exact (IH gs ge search xs ans i acc HF).
-    + set (cd := (d + xplen (xh n) + 1)%nat).
-      assert (Eq : map ent (rev xs) ++ rev (map (fun c => (Some c, Z.of_nat cd)) (xkids n)) =
-                   map ent (rev (map (fun c => (c, cd)) (xkids n) ++ xs)))
-        by (rewrite rev_app_distr, map_app, <- !map_rev, !map_map; reflexivity).
-      rewrite Eq, IH.
-      * rewrite map_app. unfold with_depth. rewrite !map_map. reflexivity.
-      * apply Forall_app. split; [|exact HF]. apply Forall_map. cbn [fst]. apply xkids_xtwf. exact Hx.
-Qed.
-
-Theorem gen_rangeScan_eq : forall fuel t gs ge ts te ans, xtwf t ->
-  ires_abs (g_rangeScan fuel (Some t) gs ge ts te ans) =
-  Some (walk (range_leaf_act gs ge) (expand_range (range_search ts te)) fuel [(tabs t, 0%nat)] ans 0 []).
-Proof.
-  intros fuel t gs ge ts te ans Hx. unfold g_rangeScan. change 0%Z with (Z.of_nat 0).
-  rewrite gen_longestCommonPrefix_eq. cbv zeta. cbn [ref_pointer ref_is_nil app].
-  assert (Hle : (longestCommonPrefix ts te 0 <= length ts)%nat).
-  { unfold longestCommonPrefix. pose proof (lcpn_le (Nat.min (length ts) (length te) - 0) (skipn 0 ts) (skipn 0 te)). lia. }
-  pose proof (gen_rangeScan_loop_eq fuel gs ge (range_search ts te) [(t, 0%nat)] ans 0%nat [] (Forall_cons (t, 0%nat) (Hx : xtwf (fst (t, 0%nat))) (Forall_nil _))) as E.
-  cbn [rev map app] in E. unfold ent, ment in E. cbn [fst snd Z.of_nat] in *. unfold range_search in *.
-  destruct (Z.eqb_spec (Z.of_nat (longestCommonPrefix ts te 0)) 0) as [E0|E0]; cbn [negb].
-  - replace (longestCommonPrefix ts te 0) with 0%nat in * by lia. exact E.
-  - rewrite slice_to_nat by exact Hle. exact E.
-Qed.
-Theorem gen_rangeScan_nil : forall fuel gs ge ts te ans, g_rangeScan fuel None gs ge ts te ans = IDone ByReturn 0 [].
-Proof.
-  intros fuel gs ge ts te ans. unfold g_rangeScan. change 0%Z with (Z.of_nat 0). rewrite gen_longestCommonPrefix_eq. cbv zeta.
-  cbn [ref_pointer ref_is_nil].
-  assert (Hle : (longestCommonPrefix ts te 0 <= length ts)%nat).
-  { unfold longestCommonPrefix. pose proof (lcpn_le (Nat.min (length ts) (length te) - 0) (skipn 0 ts) (skipn 0 te)). lia. }
-  destruct (negb (Z.of_nat (longestCommonPrefix ts te 0) =? Z.of_nat 0)%Z); [rewrite slice_to_nat by exact Hle|]; reflexivity.
-Qed.
-
-(* ================= 8. topK / bottomK ================= *)
-(* the loop body as Model/Iter.v describes it:  if remaining == 0 {return}; if !yield(key, val) {break}; remaining-- *)
-Definition bounded_step (ans : nat -> bool) (remaining : N) (y : nat) : bstep N :=
-  if remaining =? 0 then BReturn remaining y
-  else if ans y then BNext (remaining - 1) (S y) else BBreak remaining (S y).
-
-Lemma subw64_pred : forall r, r <> 0 -> r < 2 ^ 64 -> subw 64 r 1 = r - 1.
-Proof.
-  intros r H0 H. unfold subw. replace (r + 2 ^ 64 - 1) with (r - 1 + 1 * 2 ^ 64) by lia.
-  rewrite N.mod_add by lia. apply N.mod_small. lia.
-Qed.
-Theorem gen_topK_body_eq : forall ans r y, r < 2 ^ 64 -> g_topK_body ans r y = bounded_step ans r y.
-Proof.
-  intros ans r y Hr. unfold g_topK_body, bounded_step. cbv zeta.
-  destruct (N.eqb_spec r 0) as [E|E]; [reflexivity|]. destruct (ans y); cbn [negb]; [|reflexivity].
-  rewrite subw64_pred by assumption. reflexivity.
-Qed.
-Theorem gen_bottomK_body_eq : forall ans r y, r < 2 ^ 64 -> g_bottomK_body ans r y = bounded_step ans r y.
-Proof.
-  intros ans r y Hr. unfold g_bottomK_body, bounded_step. cbv zeta.
-  destruct (N.eqb_spec r 0) as [E|E]; [reflexivity|]. destruct (ans y); cbn [negb]; [|reflexivity].
-  rewrite subw64_pred by assumption. reflexivity.
-Qed.
-
-(* what run_bounded assumes of the iterator it wraps (Model/Iter.v states it for the scans of this file, which
-   have these properties: walk_seq_ok below) *)
-Record seq_ok (f : (nat -> bool) -> wres) : Prop := mkSeqOk {
-  (* only the answers up to the first false matter *)
-  so_ext : forall a b, (forall i, (forall j, (j < i)%nat -> a j = true) -> a i = b i) -> f a = f b;
-  (* every call delivers one element *)
-  so_len : forall a, length (delivered (f a)) = calls (f a);
-  (* no call after an answer false *)
-  so_true : forall a j, (S j < calls (f a))%nat -> a j = true;
-  (* stopped = the last answer was false *)
-  so_stop : forall a, status (f a) = WStopped <-> exists j, calls (f a) = S j /\ a j = false }.
-
-Section WalkSeq.
-Variable leaf_act : tree -> lact.
-Variable expand : rnode tree -> nat -> option (list (tree * nat)).
-Let W := walk leaf_act expand.
-
-Lemma walk_ext : forall fuel stk a b i acc,
-  (forall i', (i <= i')%nat -> (forall j, (i <= j < i')%nat -> a j = true) -> a i' = b i') ->
-  W fuel stk a i acc = W fuel stk b i acc.
-Proof.
-  unfold W. induction fuel as [|fuel IH]; intros stk a b i acc H; [reflexivity|].
-  destruct stk as [|[t d] st]; [reflexivity|]. cbn [walk].
-  destruct t as [gk tk v|n].
-  - destruct (leaf_act (Leaf gk tk v)); [|apply IH; exact H|reflexivity].
-    rewrite <- (H i (Nat.le_refl i)) by (intros j Hj; lia).
-    destruct (a i) eqn:Ea; [|reflexivity]. apply IH. intros i' Hi' Hj. apply H; [lia|].
-    intros j Hjj. destruct (Nat.eq_dec j i) as [->|Hne]; [exact Ea|apply Hj; lia].
-  - destruct (expand n d); apply IH; exact H.
-Qed.
-Lemma walk_len : forall fuel stk a i acc,
-  (length (delivered (W fuel stk a i acc)) + i = calls (W fuel stk a i acc) + length acc)%nat /\
-  (i <= calls (W fuel stk a i acc))%nat.
-Proof.
-  unfold W. induction fuel as [|fuel IH]; intros stk a i acc; [cbn [walk delivered calls]; rewrite rev_length; lia|].
-  destruct stk as [|[t d] st]; [cbn [walk delivered calls]; rewrite rev_length; lia|]. cbn [walk].
-  destruct t as [gk tk v|n].
-  - destruct (leaf_act (Leaf gk tk v)); [|apply IH|cbn [delivered calls]; rewrite rev_length; lia].
-    destruct (a i).
-    + specialize (IH st a (S i) (Leaf gk tk v :: acc)). cbn [length] in IH. lia.
-    + cbn [delivered calls]. rewrite rev_length. cbn [length]. lia.
-  - destruct (expand n d); apply IH.
-Qed.
-Lemma walk_true : forall fuel stk a i acc j, (i <= j)%nat -> (S j < calls (W fuel stk a i acc))%nat -> a j = true.
-Proof.
-  unfold W. induction fuel as [|fuel IH]; intros stk a i acc j Hij Hc; [cbn [walk calls] in Hc; lia|].
-  destruct stk as [|[t d] st]; [cbn [walk calls] in Hc; lia|]. cbn [walk] in Hc.
-  destruct t as [gk tk v|n].
-  - destruct (leaf_act (Leaf gk tk v)); [|exact (IH _ _ _ _ _ Hij Hc)|cbn [calls] in Hc; lia].
-    destruct (a i) eqn:Ea; [|cbn [calls] in Hc; lia].
-    destruct (Nat.eq_dec j i) as [->|Hne]; [exact Ea|]. apply (IH st a (S i) (Leaf gk tk v :: acc) j); [lia|exact Hc].
-  - destruct (expand n d); exact (IH _ _ _ _ _ Hij Hc).
-Qed.
-Lemma walk_stop : forall fuel stk a i acc,
-  status (W fuel stk a i acc) = WStopped <-> exists j, (i <= j)%nat /\ calls (W fuel stk a i acc) = S j /\ a j = false.
-Proof.
-  unfold W. induction fuel as [|fuel IH]; intros stk a i acc.
-  { cbn [walk status calls]. split; [discriminate|]. intros (j & H1 & H2 & _). lia. }
-  destruct stk as [|[t d] st].
-  { cbn [walk status calls]. split; [discriminate|]. intros (j & H1 & H2 & _). lia. }
-  cbn [walk]. destruct t as [gk tk v|n].
-  - destruct (leaf_act (Leaf gk tk v)); [|apply IH|].
-    + destruct (a i) eqn:Ea.
-      * rewrite IH. split; intros (j & H1 & H2 & H3); exists j; (split; [|split; assumption]); [lia|].
-        destruct (Nat.eq_dec j i) as [->|Hne]; [congruence|lia].
-      * cbn [status calls]. split; [intros _; exists i; repeat split; [lia|exact Ea]|reflexivity].
-    + cbn [status calls]. split; [discriminate|]. intros (j & H1 & H2 & _). lia.
-  - destruct (expand n d); apply IH.
-Qed.
-
-Theorem walk_seq_ok : forall fuel stk, seq_ok (fun a => W fuel stk a 0%nat []).
-Proof.
-  intros fuel stk. constructor.
-  - intros a b H. apply walk_ext. intros i' _ Hj. apply H. intros j Hjj. apply Hj. lia.
-  - intros a. pose proof (walk_len fuel stk a 0%nat []) as [H _]. cbn [length] in H. lia.
-  - intros a j Hc. exact (walk_true fuel stk a 0%nat [] j (Nat.le_0_l j) Hc).
-  - intros a. rewrite walk_stop. split; intros (j & H); exists j; [tauto|]. split; [lia|exact H].
-Qed.
-End WalkSeq.
-
-(* how the wrapper closure ended, against the status run_bounded reports (the status of the wrapped scan):
-   return at remaining == 0 and break after a refused element both show up as "stopped" *)
-Definition bounded_status (how : iend) (st : wstatus) : Prop :=
-  match how with
-  | ByReturn | ByBreak => st = WStopped
-  | ByEnd => st = WDone \/ st = WBroke
-  | ByFuel => st = WFuel
-  end.
-
-Section Bounded.
-Variable k : N.
-Variable ans : nat -> bool.
-Variable step : N -> nat -> bstep N.
-Hypothesis Hstep : forall r y, r <= k -> step r y = bounded_step ans r y.
-Let cm : nat -> bool := fun i => (N.of_nat i <? k) && ans i.
-
-Lemma pre_state : forall i, (forall j, (j < i)%nat -> cm j = true) ->
-  range_pre step k 0%nat i = Some (k - N.of_nat i, i).
-Proof.
-  induction i as [|i IH]; intros H; [cbn [range_pre]; f_equal; f_equal; lia|].
-  cbn [range_pre]. rewrite IH by (intros j Hj; apply H; lia).
-  rewrite Hstep by lia. unfold bounded_step.
-  pose proof (H i ltac:(lia)) as Hi. unfold cm in Hi. apply andb_prop in Hi. destruct Hi as [H1 H2]. apply N.ltb_lt in H1.
-  destruct (N.eqb_spec (k - N.of_nat i) 0); [lia|]. rewrite H2. f_equal. f_equal. lia.
-Qed.
-Lemma consumer_agrees : forall i, (forall j, (j < i)%nat -> cm j = true) -> cm i = range_ans step k 0%nat i.
-Proof.
-  intros i H. unfold range_ans. rewrite (pre_state i H), Hstep by lia. unfold bounded_step, cm.
-  assert (Hi : N.of_nat i <= k).
-  { destruct i as [|i]; [lia|]. pose proof (H i ltac:(lia)) as Hi. unfold cm in Hi. apply andb_prop in Hi.
-    destruct Hi as [H1 _]. apply N.ltb_lt in H1. lia. }
-  destruct (N.eqb_spec (k - N.of_nat i) 0) as [E|E].
-  - replace (N.of_nat i <? k) with false by (symmetry; apply N.ltb_ge; lia). reflexivity.
-  - replace (N.of_nat i <? k) with true by (symmetry; apply N.ltb_lt; lia). cbn [andb]. destruct (ans i); reflexivity.
-Qed.
-
-Lemma fold_bounded : forall els y out how,
-  N.of_nat y <= k ->
-  (forall j, (y <= j)%nat -> (S j < y + length els)%nat -> cm j = true) ->
-  exists how',
-    range_fold step how (k - N.of_nat y) y out els =
-      IDone how' (y + (if (N.of_nat (length els) <=? k - N.of_nat y)%N then length els else N.to_nat (k - N.of_nat y)%N))%nat
-            (rev (takeN (k - N.of_nat y) els) ++ out) /\
-    match how' with
-    | ByReturn | ByBreak => exists j, (y + length els = S j)%nat /\ cm j = false
-    | ByEnd => how <> ByFuel /\ (forall j, (y + length els = S j)%nat -> (y <= j)%nat -> cm j = true)
-    | ByFuel => how = ByFuel /\ (forall j, (y + length els = S j)%nat -> (y <= j)%nat -> cm j = true)
-    end.
-Proof.
-  induction els as [|x els IH]; intros y out how Hy HP.
-  - cbn [range_fold length takeN rev app]. replace (N.of_nat 0 <=? k - N.of_nat y) with true by (symmetry; apply N.leb_le; lia).
-    rewrite Nat.add_0_r. destruct how; eexists; (split; [reflexivity|]); cbn beta iota;
-      (split; [congruence|intros j Hj Hyj; lia]).
-  - cbn [range_fold]. rewrite Hstep by lia. unfold bounded_step. cbn [length] in *.
-    destruct (N.eqb_spec (k - N.of_nat y) 0) as [E|E].
-    + (* remaining == 0: return *)
-      assert (Hl : els = []).
-      { destruct els as [|x' els]; [reflexivity|]. cbn [length] in HP. pose proof (HP y ltac:(lia) ltac:(lia)) as Hc.
-        unfold cm in Hc. apply andb_prop in Hc. destruct Hc as [H1 _]. apply N.ltb_lt in H1. lia. }
-      subst els. cbn [length]. rewrite Nat.eqb_refl.
-      exists ByReturn. split.
-      * rewrite E. cbn [takeN]. replace (N.of_nat 1 <=? 0) with false by reflexivity.
-        rewrite N.eqb_refl. cbn [rev app N.to_nat]. rewrite Nat.add_0_r. reflexivity.
-      * exists y. split; [lia|]. unfold cm. replace (N.of_nat y <? k) with false by (symmetry; apply N.ltb_ge; lia). reflexivity.
-    + destruct (ans y) eqn:Ea.
-      * (* forwarded, accepted *)
-        replace (S y =? y)%nat with false by (symmetry; apply Nat.eqb_neq; lia).
-        replace (k - N.of_nat y - 1) with (k - N.of_nat (S y)) by lia.
-        destruct (IH (S y) (x :: out) how ltac:(lia)) as (how' & Hr & Hh).
-        { intros j Hj1 Hj2. apply HP; lia. }
-        exists how'. split.
-        -- rewrite Hr. cbn [takeN]. destruct (N.eqb_spec (k - N.of_nat y) 0); [contradiction|].
-           replace (k - N.of_nat y - 1) with (k - N.of_nat (S y)) by lia. cbn [rev]. rewrite <- app_assoc. cbn [app].
-           f_equal.
-           destruct (N.leb_spec (N.of_nat (length els)) (k - N.of_nat (S y)));
-             destruct (N.leb_spec (N.of_nat (S (length els))) (k - N.of_nat y)); lia.
-        -- assert (Hcy : cm y = true) by (unfold cm; rewrite Ea; replace (N.of_nat y <? k) with true by (symmetry; apply N.ltb_lt; lia); reflexivity).
-           destruct how'.
-           ++ destruct Hh as (j & Hj & Hc). exists j. split; [lia|exact Hc].
-           ++ destruct Hh as (j & Hj & Hc). exists j. split; [lia|exact Hc].
-           ++ destruct Hh as [Hn Hall]. split; [exact Hn|]. intros j Hj Hyj.
-              destruct (Nat.eq_dec j y) as [->|Hne]; [exact Hcy|]. apply Hall; lia.
-           ++ destruct Hh as [Hn Hall]. split; [exact Hn|]. intros j Hj Hyj.
-              destruct (Nat.eq_dec j y) as [->|Hne]; [exact Hcy|]. apply Hall; lia.
-      * (* forwarded, refused: break *)
-        assert (Hl : els = []).
-        { destruct els as [|x' els]; [reflexivity|]. cbn [length] in HP. pose proof (HP y ltac:(lia) ltac:(lia)) as Hc.
-          unfold cm in Hc. rewrite Ea, andb_false_r in Hc. discriminate. }
-        subst els. cbn [length].
-        replace (S y =? y)%nat with false by (symmetry; apply Nat.eqb_neq; lia).
-        exists ByBreak. split.
-        -- cbn [takeN]. destruct (N.eqb_spec (k - N.of_nat y) 0); [contradiction|]. cbn [rev app].
-           replace (N.of_nat 1 <=? k - N.of_nat y) with true by (symmetry; apply N.leb_le; lia). f_equal. lia.
-        -- exists y. split; [lia|]. unfold cm. rewrite Ea. apply andb_false_r.
-Qed.
-
-(* the wrapper closure around a well-behaved iterator: what the outer consumer sees is what run_bounded says *)
-Theorem bounded_eq : forall (seq : (nat -> bool) -> ires) (seq' : (nat -> bool) -> wres),
-  seq_ok seq' -> (forall a, ires_abs (seq a) = Some (seq' a)) ->
-  exists how c acc, range_over step seq k 0%nat [] = IDone how c acc /\
-    rev (map tabs acc) = takeN k (delivered (seq' cm)) /\
-    c = (if N.of_nat (calls (seq' cm)) <=? k then calls (seq' cm) else N.to_nat k) /\
-    bounded_status how (status (seq' cm)).
-Proof.
-  intros seq seq' Hok Habs. unfold range_over.
-  pose proof (Habs (range_ans step k 0%nat)) as Ha.
-  rewrite <- (so_ext _ Hok cm (range_ans step k 0%nat) consumer_agrees) in Ha.
-  set (r := seq' cm) in *.
-  destruct (seq (range_ans step k 0%nat)) as [how n acc| |]; cbn [ires_abs] in Ha; try discriminate.
-  injection Ha as Ha. pose proof (so_len _ Hok cm) as Hlen. pose proof (so_true _ Hok cm) as Htrue.
-  pose proof (so_stop _ Hok cm) as Hstop. fold r in Hlen, Htrue, Hstop.
-  rewrite <- Ha in Hlen, Htrue, Hstop |- *. cbn [delivered calls status] in *.
-  assert (Hn : length (rev acc) = n) by (rewrite rev_length in *; rewrite map_length in Hlen; exact Hlen).
-  destruct (fold_bounded (rev acc) 0%nat [] how ltac:(lia)) as (how' & Hr & Hh).
-  { intros j _ Hj. apply Htrue. lia. }
-  cbn [N.of_nat] in Hr. rewrite N.sub_0_r in Hr. rewrite Hr, Hn. cbn [Nat.add].
-  exists how'. eexists. eexists. split; [reflexivity|]. split; [|split; [reflexivity|]].
-  - rewrite app_nil_r, map_rev, rev_involutive, <- takeN_map, map_rev. reflexivity.
-  - rewrite Hn in Hh. cbn [Nat.add] in Hh. unfold bounded_status.
-    destruct how'.
-    + apply Hstop. destruct Hh as (j & Hj & Hc). exists j. split; assumption.
-    + apply Hstop. destruct Hh as (j & Hj & Hc). exists j. split; assumption.
-    + destruct Hh as [Hnf Hall].
-      assert (Hns : status_of how <> WStopped).
-      { intros Hs. apply Hstop in Hs. destruct Hs as (j & Hj & Hc). rewrite (Hall j Hj ltac:(lia)) in Hc. discriminate. }
-      destruct how; cbn [status_of] in *; try congruence; [right|left]; reflexivity.
-    + destruct Hh as [-> _]. reflexivity.
-Qed.
-End Bounded.
-
-(* the wrapper closure: what the outer consumer is called with, how often, and how the closure ends, against
-   run_bounded; k is a Go uint *)
-Theorem gen_topK_eq : forall (all bwd : (nat -> bool) -> ires) (bwd' : (nat -> bool) -> wres) k ans,
-  0 < k -> k < 2 ^ 64 -> seq_ok bwd' -> (forall a, ires_abs (bwd a) = Some (bwd' a)) ->
-  exists how c acc, g_topK all bwd k ans = IDone how c acc /\
-    rev (map tabs acc) = delivered (run_bounded bwd' k ans) /\ c = calls (run_bounded bwd' k ans) /\
-    bounded_status how (status (run_bounded bwd' k ans)).
-Proof.
-  intros all bwd bwd' k ans H0 Hk Hok Habs. unfold g_topK, run_bounded. cbv zeta.
-  destruct (N.eqb_spec k 0) as [E|_]; [lia|]. cbn [delivered calls status].
-  apply (bounded_eq k ans (g_topK_body ans)); [|exact Hok|exact Habs].
-  intros r y Hr. apply gen_topK_body_eq. lia.
-Qed.
-Theorem gen_bottomK_eq : forall (all bwd : (nat -> bool) -> ires) (all' : (nat -> bool) -> wres) k ans,
-  0 < k -> k < 2 ^ 64 -> seq_ok all' -> (forall a, ires_abs (all a) = Some (all' a)) ->
-  exists how c acc, g_bottomK all bwd k ans = IDone how c acc /\
-    rev (map tabs acc) = delivered (run_bounded all' k ans) /\ c = calls (run_bounded all' k ans) /\
-    bounded_status how (status (run_bounded all' k ans)).
-Proof.
-  intros all bwd all' k ans H0 Hk Hok Habs. unfold g_bottomK, run_bounded. cbv zeta.
-  destruct (N.eqb_spec k 0) as [E|_]; [lia|]. cbn [delivered calls status].
-  apply (bounded_eq k ans (g_bottomK_body ans)); [|exact Hok|exact Habs].
-  intros r y Hr. apply gen_bottomK_body_eq. lia.
-Qed.
-(* k == 0: the closure returns before it touches the tree (the model reports WDone here) *)
-Theorem gen_topK_zero : forall all bwd bwd' ans,
-  g_topK all bwd 0 ans = IDone ByReturn 0 [] /\ run_bounded bwd' 0 ans = mkWres [] 0 WDone.
-Proof. intros. split; reflexivity. Qed.
-Theorem gen_bottomK_zero : forall all bwd all' ans,
-  g_bottomK all bwd 0 ans = IDone ByReturn 0 [] /\ run_bounded all' 0 ans = mkWres [] 0 WDone.
-Proof. intros. split; reflexivity. Qed.
-
-(* on a tree: TopK(k) of the API is topK over Backward(), BottomK(k) is bottomK over All(); the wrapped scans are the
-   regenerated ones, with the budget Model/Iter.v gives them *)
-Corollary gen_topK_tree : forall all t k ans, 0 < k -> k < 2 ^ 64 -> xtwf t ->
-  exists how c acc, g_topK all (g_backward (walk_fuel (tabs t)) (Some t)) k ans = IDone how c acc /\
-    rev (map tabs acc) = delivered (run_bounded (run_backward (Some (tabs t))) k ans) /\
-    c = calls (run_bounded (run_backward (Some (tabs t))) k ans) /\
-    bounded_status how (status (run_bounded (run_backward (Some (tabs t))) k ans)).
-Proof.
-  intros all t k ans H0 Hk Hx. apply gen_topK_eq; try assumption.
-  - apply walk_seq_ok.
-  - intros a. apply gen_backward_eq. exact Hx.
-Qed.
-Corollary gen_bottomK_tree : forall bwd t k ans, 0 < k -> k < 2 ^ 64 -> xtwf t ->
-  exists how c acc, g_bottomK (g_all (walk_fuel (tabs t)) (Some t)) bwd k ans = IDone how c acc /\
-    rev (map tabs acc) = delivered (run_bounded (run_all (Some (tabs t))) k ans) /\
-    c = calls (run_bounded (run_all (Some (tabs t))) k ans) /\
-    bounded_status how (status (run_bounded (run_all (Some (tabs t))) k ans)).
-Proof.
-  intros bwd t k ans H0 Hk Hx. apply gen_bottomK_eq; try assumption.
-  - apply walk_seq_ok.
-  - intros a. apply gen_all_eq. exact Hx.
-Qed.
 
 (* ================= 9. the hypotheses are satisfiable; the translations run ================= *)
 (* xtwf t (and WF 0 (tabs t) for lowestCommonParent) hold after every admissible history: TranslateTreeFacts.hyps_reachable.
